@@ -30,10 +30,12 @@ VARIABLES
   hs,        \* Nil | [h, seen, fwd, start]  the scan in progress
   lq,        \* Nil | log in intake [e, st]  st \in {"time", "ins"}
   rs,        \* Nil | re-observation in progress [tx, st, h, blk, msgs]
+  pon,       \* the block poller has been switched on (by a stored log) and not off again (by a scan that left
+             \* nothing pending, or by a restart of Run, which builds a new, idle poller)
   fwd,       \* history: messages handed to the signing pipeline [e, via, sound]
   life       \* history per pending key: [fs, deep, stable, err]
 
-wvars == <<cfg, pending, tried, pl, hq, hs, lq, rs, fwd, life>>
+wvars == <<cfg, pending, tried, pl, hq, hs, lq, rs, pon, fwd, life>>
 vars  == <<chain, wvars>>
 
 Tag       == IF cfg.fin THEN "finalized" ELSE "latest"
@@ -58,11 +60,11 @@ Sound(e, h) == InItsBlock(e) /\ Deep(e, h) /\ h <= HeadFor(Tag)
 
 WatcherInit(c, p) ==
     /\ cfg = c /\ pending = {} /\ tried = {} /\ pl = p /\ hq = <<>>
-    /\ hs = Nil /\ lq = Nil /\ rs = Nil /\ fwd = {} /\ life = <<>>
+    /\ hs = Nil /\ lq = Nil /\ rs = Nil /\ pon = FALSE /\ fwd = {} /\ life = <<>>
 
 Touch(T) == life' = [k \in DOMAIN life |-> IF k[1] \in T THEN [life[k] EXCEPT !.stable = FALSE] ELSE life[k]]
 
-WUnch == UNCHANGED <<cfg, pending, tried, pl, hq, hs, lq, rs, fwd>>
+WUnch == UNCHANGED <<cfg, pending, tried, pl, hq, hs, lq, rs, pon, fwd>>
 
 ---------------------------------------------------------------------------
 \* Environment (EvmChain actions; the history notes which transactions were disturbed)
@@ -83,12 +85,20 @@ PushLog(tx, i, delivered) ==
     /\ Mined(tx) /\ i \in 1..Len(txs[tx])
     /\ delivered = IsMsg(txs[tx][i])
     /\ lq' = IF delivered THEN [e |-> EntryOf(tx, rcpt[tx].blk, txs[tx][i]), st |-> "time"] ELSE Nil
-    /\ UNCHANGED <<chain, cfg, pending, tried, pl, hq, hs, rs, fwd, life>>
+    /\ UNCHANGED <<chain, cfg, pending, tried, pl, hq, hs, rs, fwd, life, pon>>
 
 L_BlockTime(b) ==
     /\ lq # Nil /\ lq.st = "time" /\ b = lq.e.blk
+    /\ ~Fails("ltime")
     /\ lq' = [lq EXCEPT !.st = "ins"]
-    /\ UNCHANGED <<chain, cfg, pending, tried, pl, hq, hs, rs, fwd, life>>
+    /\ UNCHANGED <<chain, cfg, pending, tried, pl, hq, hs, rs, fwd, life, pon>>
+
+\* The block lookup fails: the log is lost and Run returns with an error (the supervisor restarts it: RunRestart).
+L_BlockTimeFail(b) ==
+    /\ lq # Nil /\ lq.st = "time" /\ b = lq.e.blk
+    /\ Fails("ltime") /\ Consume("ltime")
+    /\ lq' = Nil
+    /\ UNCHANGED <<latest, final, variant, txs, rcpt, cfg, pending, tried, pl, hq, hs, rs, pon, fwd, life>>
 
 \* The insertion takes pendingMu, so it happens before or after a scan, never inside one.  (A scan that has
 \* been announced but has not looked at anything yet has not necessarily taken the lock: inserting then is
@@ -102,6 +112,7 @@ L_Insert ==
        THEN UNCHANGED <<pending, life>>
        ELSE /\ pending' = pending \cup {lq.e}
             /\ life' = Put(life, Key(lq.e), [fs |-> 0, deep |-> FALSE, stable |-> InItsBlock(lq.e), err |-> FALSE])
+    /\ pon' = TRUE          \* EnablePoller, in the same critical section as the insertion
     /\ UNCHANGED <<chain, cfg, tried, pl, hq, rs, fwd>>
 
 \* The hand-over of a log is not atomic: between LogReceived (the log arrives on the subscription and the block
@@ -121,7 +132,7 @@ B_Poll(tag) ==
             /\ IF HeadFor(tag) > pl
                THEN pl' = HeadFor(tag) /\ hq' = Append(hq, HeadFor(tag))
                ELSE UNCHANGED <<pl, hq>>
-    /\ UNCHANGED <<latest, final, variant, txs, rcpt, cfg, pending, tried, hs, lq, rs, fwd, life>>
+    /\ UNCHANGED <<latest, final, variant, txs, rcpt, cfg, pending, tried, hs, lq, rs, fwd, life, pon>>
 
 ---------------------------------------------------------------------------
 \* H: the per-head scan (one critical section under pendingMu, containing RPC calls)
@@ -130,7 +141,7 @@ H_Head(n) ==
     /\ hs = Nil
     /\ IF Len(hq) > 0 THEN n = Head(hq) /\ hq' = Tail(hq) ELSE n = pl /\ hq' = hq
     /\ hs' = [h |-> n, seen |-> {}, fwd |-> Nil, start |-> pending]
-    /\ UNCHANGED <<chain, cfg, pending, tried, pl, lq, rs, fwd, life>>
+    /\ UNCHANGED <<chain, cfg, pending, tried, pl, lq, rs, fwd, life, pon>>
 
 Outcome(e, kind) ==
     IF Fails(kind) THEN "error"
@@ -153,7 +164,7 @@ H_Receipt(e) ==
        /\ hs' = [hs EXCEPT !.seen = @ \cup {Key(e)},
                            !.fwd = IF o = "same" THEN [e |-> e, sound |-> Sound(e, hs.h)] ELSE Nil]
        /\ life' = IF o = "error" THEN [life EXCEPT ![Key(e)].err = TRUE] ELSE life
-    /\ UNCHANGED <<latest, final, variant, txs, rcpt, cfg, pl, hq, lq, rs, fwd>>
+    /\ UNCHANGED <<latest, final, variant, txs, rcpt, cfg, pl, hq, lq, rs, fwd, pon>>
 
 \* A lookup for an entry that is not yet deep enough decides nothing (the property does not forbid asking early).
 H_ReceiptEarly(tx) ==
@@ -167,7 +178,7 @@ H_Forward(e) ==
     /\ fwd' = fwd \cup {[e |-> e, via |-> "scan", sound |-> hs.fwd.sound]}
     /\ life' = [life EXCEPT ![Key(e)].fs = @ + 1]
     /\ hs' = [hs EXCEPT !.fwd = Nil]
-    /\ UNCHANGED <<chain, cfg, pending, tried, pl, hq, lq, rs>>
+    /\ UNCHANGED <<chain, cfg, pending, tried, pl, hq, lq, rs, pon>>
 
 \* End of the scan.  Every entry that was deep enough has been looked up.  A is the set of entries the
 \* watcher gives up on: only entries that could not be confirmed (transient errors) although the head
@@ -183,6 +194,7 @@ H_Done(A) ==
     /\ life' = [k \in DOMAIN life |->
                   IF \E e \in hs.start : Key(e) = k /\ Deep(e, hs.h) THEN [life[k] EXCEPT !.deep = TRUE] ELSE life[k]]
     /\ hs' = Nil
+    /\ pon' = IF pending \ A = {} THEN FALSE ELSE pon      \* DisablePoller when nothing is left to wait for
     /\ UNCHANGED <<chain, cfg, pl, hq, lq, rs, fwd>>
 
 ---------------------------------------------------------------------------
@@ -190,7 +202,7 @@ H_Done(A) ==
 R_Req(tx) ==
     /\ rs = Nil
     /\ rs' = [tx |-> tx, st |-> "head", h |-> 0, blk |-> Nil, msgs |-> <<>>]
-    /\ UNCHANGED <<chain, cfg, pending, tried, pl, hq, hs, lq, fwd, life>>
+    /\ UNCHANGED <<chain, cfg, pending, tried, pl, hq, hs, lq, fwd, life, pon>>
 
 \* The head is read BEFORE the receipt.
 R_Head(tag) ==
@@ -198,7 +210,7 @@ R_Head(tag) ==
     /\ IF Fails("rhead")
        THEN Consume("rhead") /\ rs' = Nil
        ELSE UNCHANGED armed /\ rs' = [rs EXCEPT !.st = "rcpt", !.h = HeadFor(tag)]
-    /\ UNCHANGED <<latest, final, variant, txs, rcpt, cfg, pending, tried, pl, hq, hs, lq, fwd, life>>
+    /\ UNCHANGED <<latest, final, variant, txs, rcpt, cfg, pending, tried, pl, hq, hs, lq, fwd, life, pon>>
 
 R_Receipt(tx) ==
     /\ rs # Nil /\ rs.st = "rcpt" /\ tx = rs.tx
@@ -208,7 +220,7 @@ R_Receipt(tx) ==
             /\ rs' = IF Mined(tx) /\ rcpt[tx].status = 1
                      THEN [rs EXCEPT !.st = "time", !.blk = rcpt[tx].blk]
                      ELSE Nil
-    /\ UNCHANGED <<latest, final, variant, txs, rcpt, cfg, pending, tried, pl, hq, hs, lq, fwd, life>>
+    /\ UNCHANGED <<latest, final, variant, txs, rcpt, cfg, pending, tried, pl, hq, hs, lq, fwd, life, pon>>
 
 \* Messages of the transaction: logs of the core contract with the message-published topic, in receipt
 \* order, each deep enough under the head read at the start.
@@ -223,14 +235,32 @@ R_BlockTime(b) ==
        THEN Consume("rtime") /\ rs' = Nil
        ELSE /\ UNCHANGED armed
             /\ rs' = IF Len(RMsgs) = 0 THEN Nil ELSE [rs EXCEPT !.st = "fwd", !.msgs = RMsgs]
-    /\ UNCHANGED <<latest, final, variant, txs, rcpt, cfg, pending, tried, pl, hq, hs, lq, fwd, life>>
+    /\ UNCHANGED <<latest, final, variant, txs, rcpt, cfg, pending, tried, pl, hq, hs, lq, fwd, life, pon>>
 
 R_Forward(e) ==
     /\ rs # Nil /\ rs.st = "fwd" /\ Len(rs.msgs) > 0 /\ e = Head(rs.msgs)
     /\ fwd' = fwd \cup {[e |-> e, via |-> "reobs",
                          sound |-> IsMsgOf(e) /\ e.blk = rs.blk /\ Deep(e, rs.h) /\ rs.h <= HeadFor(Tag)]}
     /\ rs' = IF Len(rs.msgs) = 1 THEN Nil ELSE [rs EXCEPT !.msgs = Tail(@)]
-    /\ UNCHANGED <<chain, cfg, pending, tried, pl, hq, hs, lq, life>>
+    /\ UNCHANGED <<chain, cfg, pending, tried, pl, hq, hs, lq, life, pon>>
+
+---------------------------------------------------------------------------
+\* Run has returned (a fatal RPC error: the block lookup of a log, three failed polls in a row, a subscription or
+\* guardian-set error) and the supervisor runs it again ON THE SAME Watcher.  Connections, subscriptions and the
+\* block poller are built anew: the new poller starts from the head it reads now (heads in between are never
+\* emitted) and is idle until the next log is stored.  What belongs to the Watcher survives: `pending` (and with
+\* it every obligation of the scan rules: a message still waiting for its depth is forwarded by the first scan
+\* that sees it deep enough, however many restarts lie in between).  The harness restarts the watcher only when
+\* it is quiet; a scan, a log hand-over or a re-observation cut off by the restart is not modelled.
+RunRestart(tag) ==
+    /\ hs = Nil /\ rs = Nil /\ lq = Nil
+    /\ tag = Tag
+    /\ pl' = HeadFor(tag) /\ hq' = <<>> /\ pon' = FALSE
+    /\ UNCHANGED <<chain, cfg, pending, tried, hs, lq, rs, fwd, life>>
+
+\* The poller owes a head read: it is on, something is pending and the chain head is past the last head it emitted.
+\* (Bounded liveness in the harness: a watcher that does not poll although PollDue holds has stalled.)
+PollDue == pon /\ pending # {} /\ pl < HeadFor(Tag)
 
 ---------------------------------------------------------------------------
 (* Properties (C10) *)
